@@ -207,12 +207,43 @@ func run(N int, truncate bool) {
 		checkAll(e, t, "confirm")
 	}
 	checkPaths(e, t)
+	if truncate {
+		// truncation to any main-chain block: every stored block above the target's height goes
+		// (on every branch), the target becomes the tip
+		trunk := t.trunk()
+		k := vrt.Choice("truncate-to", len(trunk))
+		target := trunk[k]
+		err := e.L.Truncate([]byte(t.nodes[target].id))
+		vrt.Assert(err == nil, "truncation-succeeds")
+		if err != nil {
+			return
+		}
+		for _, n := range t.nodes {
+			if n.height > t.nodes[target].height {
+				n.removed = true
+			}
+		}
+		t.tip = target
+		vrt.Cover("truncation-removed-blocks", k+1 < len(trunk))
+		checkAll(e, t, "truncate")
+		// the chain goes on from the new tip
+		cb := vkit.Coinbase("cbT", "M", []byte{7})
+		b := vkit.Block([]byte(t.nodes[target].id), 99, []*pb.Transaction{cb})
+		st := e.L.ConfirmBlock(b, false)
+		vrt.Assert(st.Succ, "valid-block-confirmed")
+		if !st.Succ {
+			return
+		}
+		t.nodes = append(t.nodes, &node{id: string(b.Blockid), parent: target, height: t.nodes[target].height + 1, txs: []string{string(cb.Txid)}, order: 99, blk: b})
+		t.tip = len(t.nodes) - 1
+		checkAll(e, t, "extend-after-truncate")
+	}
 	// a reopened instance answers the same
 	e2 := *e
 	e2.L = e.Reopen()
 	checkAll(&e2, t, "reopen")
-	_ = truncate
 }
 
 func VerifC04Quick()    { run(3, false) }
 func VerifC04Thorough() { run(5, false) }
+func VerifC04Truncate() { run(3, true) }
